@@ -179,12 +179,38 @@ def struct_class(e, big_endian):
 
 # ------------------------------------------------------------------ lattice
 
+HASH_M = (1 << 61) - 1      # CPython hashes ints modulo 2**61-1: constants differing by a multiple collide
+
+
+def collision_consts(w, limit=None):
+    """Constants of width w (>= 61) on the hash-collision boundaries of CPython ints: k*(2**61-1) and neighbours,
+    2**61, 2**61+1, (2**61)**2 ...; empty below 61 bits."""
+    if w < 61:
+        return []
+    vals = set([0, 1, 2, 1 << 61, (1 << 61) + 1])
+    for k in (1, 2, 3, 7, 8, 1 << 61, (1 << 61) + 1, HASH_M):
+        for d in (-1, 0, 1):
+            vals.add(k * HASH_M + d)
+    vals.add(1 << 122)
+    out = sorted(v for v in vals if 0 <= v < (1 << w))
+    return out[:limit] if limit else out
+
+
 class FGen(exprgen.Gen):
     """exprgen.Gen restricted to the node kinds in `keep` (normalised tags)."""
 
     def __init__(self, widths, keep, **kw):
         exprgen.Gen.__init__(self, widths, **kw)
         self.keep = keep
+
+    def ints(self, w):
+        """Constant alphabet, plus the hash-collision boundary constants at widths >= 61."""
+        out = exprgen.Gen.ints(self, w)
+        if w >= 61:
+            import miasm.expression.expression as E
+            have = set(int(c) for c in out)
+            out = out + [E.ExprInt(v, w) for v in collision_consts(w) if v not in have]
+        return out
 
     def specs(self, w):
         key = ("fspecs", w)
@@ -294,6 +320,23 @@ def fam_mem(ptr_widths, data_sizes):
             yield m.zeroExtend(dw + 1)
 
 
+def hist_pairs(w, keep):
+    """Ordered pairs (E1, E2) of expressions of width w >= 61 that differ only in a constant taken from the
+    hash-collision boundary alphabet, for every shape; ONE translator instance translates E1 then E2."""
+    import miasm.expression.expression as E
+    x, y = E.ExprId("x%d" % w, w), E.ExprId("y%d" % w, w)
+    cs = collision_consts(w, limit=14)
+    shapes = [lambda c: E.ExprInt(c, w),
+              lambda c: E.ExprOp("+", x, E.ExprInt(c, w)),
+              lambda c: E.ExprCond(x, E.ExprInt(c, w), y),
+              lambda c: E.ExprCompose(E.ExprInt(c, w)[0:w // 2], x[w // 2:w])]
+    for sh in shapes:
+        for c1 in cs:
+            for c2 in cs:
+                if c1 != c2:
+                    yield [sh(c1), sh(c2)]
+
+
 def fam_iter(fam, params, keep):
     if fam == "d1":
         widths, w = params
@@ -321,8 +364,14 @@ def fam_iter(fam, params, keep):
 
 def _reduced(w):
     m = mask(w)
+    extra = (HASH_M, 1 << 61) if w >= 62 else ()
     return sorted(set(x & m for x in (0, 1, 2, w - 1, w, w + 1, (1 << (w - 1)) - 1, 1 << (w - 1), (1 << (w - 1)) + 1,
-                                      m - 1, m, int("55" * ((w + 7) // 8), 16))))
+                                      m - 1, m, int("55" * ((w + 7) // 8), 16)) + extra))
+
+
+def boundary(w):
+    """refsem.boundary(w) plus, from 61 bits, the hash-collision boundary constants of CPython ints."""
+    return sorted(set(refsem.boundary(w)) | set(collision_consts(w)))
 
 
 _vcache = {}
@@ -343,7 +392,7 @@ def valuations(widths, quick):
             if w <= 4:
                 lists.append(range(1 << w))
             elif n_wide == 1 or (n_wide == 2 and not quick):
-                lists.append(refsem.boundary(w))
+                lists.append(boundary(w))
             else:
                 lists.append(_reduced(w))
     vals = list(itertools.product(*lists))
@@ -701,12 +750,14 @@ def make_case(backend, e, ids, vals, memidx, quick=True):
             "vals": {str(i): v for i, v in zip(ids, vals)}, "mem": memidx, "quick": bool(quick)}
 
 
-def judge(backend, e, st, vs, quick, only=None):
-    """Judge one expression over its valuations (or only=(vals, memidx) for replay)."""
+def judge(backend, e, st, vs, quick, only=None, hist=None):
+    """Judge one expression over its valuations (or only=(vals, memidx) for replay).
+    hist=(handle, history case, class): judge the translation a SHARED translator instance produced after the
+    recorded history instead of a fresh translation (signature translator|shared-instance|kind|class)."""
     st["expressions"] += 1
     tag = node_tag(e)
     try:
-        h = backend.translate(e)
+        h = backend.translate(e) if hist is None else hist[0]
     except NotImplementedError:
         st["not_accepted_expressions"] += 1
         _bump(st["per_op_rejected"], node_tag(_first_rejected(backend, e)))
@@ -795,6 +846,22 @@ def judge(backend, e, st, vs, quick, only=None):
                 continue
             if cache is None:
                 cache = ExprCache(backend, ids)
+            if hist is not None:
+                sig = "%s|shared-instance|%s|%s" % (backend.name, tag, hist[2])
+                if isinstance(got, tuple):
+                    sig += "|%s" % got[0]
+                _bump(st["sig_counts"], sig)
+                if sig in seen or st["sig_counts"][sig] > MAX_PER_SIG:
+                    continue
+                seen.add(sig)
+                case = make_case(backend, e, ids, vals, memidx, quick)
+                case["hist"] = hist[1]
+                vs.append(violation(sig, "one %s translator instance, after translating %s, translates %s into a term whose "
+                                         "value under {%s} is %s; reference value and a fresh instance give 0x%x" % (
+                                             backend.name, hist[3], e,
+                                             ", ".join("%s=0x%x" % (i, v) for i, v in zip(ids, vals)),
+                                             ("0x%x" % got) if isinstance(got, int) else repr(got), want), case))
+                continue
             node, ngot = blame(cache, e, got, vals, memctx)
             sig = signature(cache, node, ngot, vals, memctx)
             _bump(st["sig_counts"], sig)
@@ -809,7 +876,87 @@ def judge(backend, e, st, vs, quick, only=None):
         st["outcomes"].update(itertools.islice(outcomes, 64))
 
 
+def _hist_class(backend, h, earlier):
+    """Does the shared instance return the translation of an earlier, different expression?"""
+    for x in earlier:
+        try:
+            if backend.same(h, backend.translate(x)):
+                return "returns-translation-of-earlier-expression", x
+        except Exception:
+            pass
+    return "differs-from-fresh-instance", None
+
+
+def judge_history(backend, seq, st, vs, quick, hist_case, only=None, check_all=False):
+    """ONE translator instance translates seq in order.  The translation of the last element (check_all: of every
+    element) must be the translation a fresh instance gives; when it is not, it is judged against the reference."""
+    tr = backend.new_instance()
+    seen = []
+    for k, e in enumerate(seq):
+        last = k == len(seq) - 1
+        try:
+            h = backend.translate(e, tr)
+        except Exception:
+            seen.append(e)
+            continue                     # failures of the translation itself are judged by the bulk families
+        if last or check_all:
+            st["history_checked"] = st.get("history_checked", 0) + 1
+            try:
+                hf = backend.translate(e)
+                same = backend.same(h, hf)
+            except Exception:
+                same = True
+            if not same:
+                st["history_differs_from_fresh"] = st.get("history_differs_from_fresh", 0) + 1
+                cls, src = _hist_class(backend, h, [x for x in seen if x is not e])
+                hc = dict(hist_case)
+                hc["upto"] = k
+                desc = ("%s" % src) if src is not None else "%d other expressions (last: %s)" % (len(seen), seen[-1] if seen else None)
+                judge(backend, e, st, vs, quick, only=only, hist=(h, hc, cls, desc))
+        seen.append(e)
+        if len(seen) > 64:
+            del seen[:32]
+
+
+def hist_sequences(fam, params, keep):
+    """-> iterator of (history case, sequence, check_all)"""
+    if fam == "hpairs":
+        w, = params
+        for i, seq in enumerate(hist_pairs(w, keep)):
+            yield {"fam": fam, "params": params, "index": i}, seq, False
+    elif fam == "hseq":
+        sub, subparams = params
+        yield {"fam": fam, "params": params, "index": 0}, list(fam_iter(sub, subparams, keep)), True
+    else:
+        raise ValueError(fam)
+
+
 def shard_worker(args):
+    if args[3] in ("hpairs", "hseq"):
+        return hist_worker(args)
+    return _shard_worker(args)
+
+
+def hist_worker(args):
+    make_backend, bname, be, fam, params, idx, nsh, quick = args
+    backend = make_backend(bname, be)
+    acc, rej = probe(backend)
+    st = new_stats()
+    vs = []
+    n = 0
+    for i, (hc, seq, check_all) in enumerate(hist_sequences(fam, params, set(acc))):
+        if i % nsh != idx:
+            continue
+        n += 1
+        judge_history(backend, seq, st, vs, quick, hc, check_all=check_all)
+    st["history_sequences"] = n
+    st["outcomes"] = set(itertools.islice(sorted(st["outcomes"]), 512))
+    sample = {"translator": bname, "family": fam, "params": repr(params), "sequences": n,
+              "translations_compared_with_fresh_instance": st.get("history_checked", 0)}
+    return {"st": st, "vs": vs, "sample": sample, "accepted": sorted(acc), "rejected": sorted(set(rej) - set(acc))}
+
+
+def _shard_worker(args):
     make_backend, bname, be, fam, params, idx, nsh, quick = args
     backend = make_backend(bname, be)
     acc, rej = probe(backend)
@@ -845,6 +992,17 @@ def standard_plan(name, quick, wide, data, ptr_widths, maxw, byte_orders, quick_
         p.append((name, False, "wide", (w, maxw, not quick), 2 if quick else 8))
     for be in byte_orders:
         p.append((name, be, "mem", (tuple(ptr_widths), tuple(data)), 8 if quick else 16))
+    # history families: ONE translator instance across many expressions (the bulk families above use a fresh
+    # translator per expression).  hpairs: ordered pairs differing in a hash-collision boundary constant;
+    # hseq: a whole family translated in order by one instance (more than the 1000 entries of its bounded cache).
+    for w in (61, 62, 63, 64, 128):
+        if w <= maxw and (not quick or w in (61, 64, 128)):
+            p.append((name, False, "hpairs", (w,), 1 if quick else 4))
+    for w in ((2, 3) if quick else SMALL):
+        p.append((name, False, "hseq", ("d1", (SMALL, w)), 1))
+    for w in wide:
+        if not quick or w >= 61:
+            p.append((name, False, "hseq", ("wide", (w, maxw, not quick)), 1))
     return p
 
 
@@ -907,5 +1065,25 @@ def replay(case, make_backend):
         except Exception:
             pass
     vals = [case["vals"][str(i)] for i in ids] if case["vals"] else []
-    judge(backend, e, st, vs, bool(case.get("quick", True)), only=(vals, case["mem"]))
+    quick = bool(case.get("quick", True))
+    if case.get("hist"):
+        hc = case["hist"]
+        params = _totuple(hc["params"])
+        keep = set(probe(backend)[0])
+        for i, (c, seq, check_all) in enumerate(hist_sequences(hc["fam"], params, keep)):
+            if i == hc["index"]:
+                seq = seq[:hc["upto"] + 1]
+                if repr(seq[-1]) != case["expr"]:
+                    raise AssertionError("history does not regenerate the recorded expression")
+                judge_history(backend, seq, st, vs, quick, {k: hc[k] for k in ("fam", "params", "index")},
+                              only=(vals, case["mem"]))
+                break
+        return vs
+    judge(backend, e, st, vs, quick, only=(vals, case["mem"]))
     return vs
+
+
+def _totuple(x):
+    if isinstance(x, list):
+        return tuple(_totuple(i) for i in x)
+    return x
